@@ -41,6 +41,11 @@ def gen_addr(w, cfg):
         mask = (1 << k) - 1
         return ("wild", _base(w) & ~mask & ALL32, mask)
     if r < 0.75 + cfg.get("p_ncw", 0.12):
+        if w.random() < 0.3:
+            # the small pool gen_members() draws from: the same wildcard value in an entry and
+            # in a group member of one process
+            mask = w.choice([0x00000503, 0x00010100])
+            return ("wild", _base(w) & ~mask & ALL32, mask)
         low = w.choice([0, 0, 2, 8])
         mask = (1 << low) - 1
         for _ in range(w.randint(1, cfg.get("max_holes", 3))):
